@@ -4,7 +4,7 @@ from .p_c01 import history
 from . import gen_chacha as G
 from .oracles import kv
 
-LEAN_MODULE = "Urandom.Props.C08"
+LEAN_MODULE = ["Urandom.Props.C08", "Urandom.Props.C01R"]
 DISAGREEMENT_IS_FAILING_INPUT = True   # the model's jump is proved to be 2^128 (2^40) steps: impl != model ==> impl jump != fixed stride
 RULE = ("requests: word generators on unit states (each of the 256 single-bit Xoshiro states), edge and random seeds/states, with histories rich in jump and split ops "
         "interleaved with draws and fills; every output, every child draw and the final state are compared with the model, whose jump is proved equal to 2^128 / 2^40 single steps. "
